@@ -121,13 +121,19 @@ Record Inv (c : cfg) (s : st) : Prop := mkInv
   { i_c2t : t_in s ++ wbuf s ++ rbuf s ++ c2t_src s = c_sent s;
     i_t2c : c_in s ++ t2c_src s = t_sent s;
     i_nobuf : buffered c = false -> wbuf s = [];
-    i_d1 : dir1 s = Done -> c_wr_open s = false /\ rbuf s = [] /\ c2t_src s = [];
+    i_d1 : dir1 s = Done -> c_abort s = false -> t_abort s = false ->
+           c_wr_open s = false /\ rbuf s = [] /\ c2t_src s = [];
+    i_d1w : dir1 s = Done -> c_wr_open s = false \/ t_abort s = true;
     i_d1e : dir1 s = Done -> eos_prop c = true -> t_eos s = true /\ wbuf s = [];
-    i_d2 : dir2 s = Done -> t_wr_open s = false /\ t2c_src s = [];
+    i_d2 : dir2 s = Done -> c_abort s = false -> t_abort s = false ->
+           t_wr_open s = false /\ t2c_src s = [];
+    i_d2w : dir2 s = Done -> t_wr_open s = false \/ c_abort s = true;
     i_d2e : dir2 s = Done -> eos_prop c = true -> c_eos s = true;
     i_te : t_eos s = true -> dir1 s = Done /\ wbuf s = [];
     i_ce : c_eos s = true -> dir2 s = Done;
-    i_cl : closed s = true -> dir1 s = Done /\ dir2 s = Done /\ t_eos s = true /\ c_eos s = true }.
+    i_cl : closed s = true -> dir1 s = Done /\ dir2 s = Done /\ t_eos s = true /\ c_eos s = true;
+    i_ca : c_abort s = true -> c_wr_open s = false;
+    i_ta : t_abort s = true -> t_wr_open s = false }.
 
 Lemma inv_init c e p : Inv c (init e p).
 Proof.
@@ -149,12 +155,13 @@ Ltac sat :=
   end;
   repeat match goal with H : _ /\ _ |- _ => destruct H end;
   try done_contra; try discriminate; try congruence;
-  repeat split; try done_contra; try congruence; auto.
+  repeat split; try done_contra; try congruence; auto;
+  try (match goal with H : _ \/ _ |- _ => destruct H end; try congruence; auto).
 
 Ltac inv_goals t1 t2 :=
-  constructor; simpl; [ t1 | t2 | sat | sat | sat | sat | sat | sat | sat | sat ].
+  constructor; simpl; [ t1 | t2 | sat | sat | sat | sat | sat | sat | sat | sat | sat | sat | sat | sat ].
 
-Ltac open_inv I := destruct I as [Ic2t It2c Inb Id1 Id1e Id2 Id2e Ite Ice Icl].
+Ltac open_inv I := destruct I as [Ic2t It2c Inb Id1 Id1w Id1e Id2 Id2w Id2e Ite Ice Icl Ica Ita].
 
 Lemma inv_step c s l s' : Inv c s -> step c s l = Some s' -> Inv c s'.
 Proof.
@@ -172,6 +179,12 @@ Proof.
     open_inv I. inv_goals ltac:(exact Ic2t) ltac:(exact It2c).
   - (* TargetShut *)
     unfold step in HS. destruct (t_wr_open s) eqn:O; [|discriminate]. inversion HS; subst; clear HS.
+    open_inv I. inv_goals ltac:(exact Ic2t) ltac:(exact It2c).
+  - (* ClientAbort *)
+    unfold step in HS. destruct (c_abort s) eqn:O; [discriminate|]. inversion HS; subst; clear HS.
+    open_inv I. inv_goals ltac:(exact Ic2t) ltac:(exact It2c).
+  - (* TargetAbort *)
+    unfold step in HS. destruct (t_abort s) eqn:O; [discriminate|]. inversion HS; subst; clear HS.
     open_inv I. inv_goals ltac:(exact Ic2t) ltac:(exact It2c).
   - (* Drain1 *)
     apply step_Drain1 in HS; [|apply I]. destruct HS as (R & NE & tin & w & E & C & NB). subst s'.
@@ -207,6 +220,32 @@ Proof.
     inversion HS; subst; clear HS. open_inv I.
     inv_goals ltac:(exact Ic2t) ltac:(rewrite <- It2c; rewrite SRC; reflexivity).
     rewrite H0. reflexivity.
+  - (* Err1 *)
+    unfold step in HS.
+    destruct (phase_eqb (dir1 s) Running
+              && (c_abort s || (t_abort s && negb (is_nil (rbuf s) && is_nil (c2t_src s))))) eqn:G;
+      [|discriminate].
+    apply andb_true_iff in G. destruct G as (R & AB). apply phase_eqb_iff in R.
+    assert (ABf : c_abort s = true \/ t_abort s = true).
+    { apply orb_true_iff in AB. destruct AB as [AB|AB]; [left; exact AB|].
+      apply andb_true_iff in AB. right. apply AB. }
+    open_inv I. destruct (eos_prop c) eqn:EP; inversion HS; subst; clear HS.
+    + inv_goals ltac:(rewrite <- Ic2t; repeat rewrite <- app_assoc; reflexivity) ltac:(exact It2c).
+      all: destruct ABf as [X|X]; try congruence; auto.
+    + inv_goals ltac:(exact Ic2t) ltac:(exact It2c).
+      all: destruct ABf as [X|X]; try congruence; auto.
+  - (* Err2 *)
+    unfold step in HS.
+    destruct (phase_eqb (dir2 s) Running && (t_abort s || (c_abort s && negb (is_nil (t2c_src s))))) eqn:G;
+      [|discriminate].
+    apply andb_true_iff in G. destruct G as (R & AB). apply phase_eqb_iff in R.
+    assert (ABf : t_abort s = true \/ c_abort s = true).
+    { apply orb_true_iff in AB. destruct AB as [AB|AB]; [left; exact AB|].
+      apply andb_true_iff in AB. right. apply AB. }
+    inversion HS; subst; clear HS. open_inv I.
+    inv_goals ltac:(exact Ic2t) ltac:(exact It2c).
+    all: try (destruct ABf as [X|X]; try congruence; auto; fail).
+    all: match goal with HE : eos_prop _ = true |- _ => rewrite HE; reflexivity end.
   - (* Join *)
     unfold step in HS.
     destruct (phase_eqb (dir1 s) Done && phase_eqb (dir2 s) Done && negb (closed s)) eqn:G; [|discriminate].
@@ -242,53 +281,35 @@ Qed.
 
 Definition lbl_cbytes (l : label) : list byte := match l with ClientSend bs => bs | _ => [] end.
 Definition lbl_tbytes (l : label) : list byte := match l with TargetSend bs => bs | _ => [] end.
-Definition lbl_cshut (l : label) : bool := match l with ClientShut => true | _ => false end.
-Definition lbl_tshut (l : label) : bool := match l with TargetShut => true | _ => false end.
+Definition lbl_cshut (l : label) : bool := match l with ClientShut | ClientAbort => true | _ => false end.
+Definition lbl_tshut (l : label) : bool := match l with TargetShut | TargetAbort => true | _ => false end.
+Definition lbl_cabort (l : label) : bool := match l with ClientAbort => true | _ => false end.
+Definition lbl_tabort (l : label) : bool := match l with TargetAbort => true | _ => false end.
+
+(* case analysis of one step: split every guard, then read off the new state *)
+Ltac crack HS :=
+  unfold step in HS;
+  repeat match type of HS with
+  | context [push ?a ?b] => destruct (push a b) eqn:?
+  | (if ?b then _ else _) = Some _ => destruct b eqn:?; try discriminate
+  end;
+  inversion HS; subst; clear HS.
 
 Lemma ghost_step c s l s' :
   step c s l = Some s' ->
   c_sent s' = c_sent s ++ lbl_cbytes l /\ t_sent s' = t_sent s ++ lbl_tbytes l /\
   c_wr_open s' = c_wr_open s && negb (lbl_cshut l) /\
-  t_wr_open s' = t_wr_open s && negb (lbl_tshut l).
+  t_wr_open s' = t_wr_open s && negb (lbl_tshut l) /\
+  c_abort s' = c_abort s || lbl_cabort l /\
+  t_abort s' = t_abort s || lbl_tabort l.
 Proof.
-  intro HS. destruct l; simpl.
-  - unfold step in HS. destruct (c_wr_open s) eqn:O; [|discriminate]. inversion HS; subst; simpl.
-    rewrite app_nil_r, andb_true_r. auto.
-  - unfold step in HS. destruct (t_wr_open s) eqn:O; [|discriminate]. inversion HS; subst; simpl.
-    rewrite app_nil_r, andb_true_r. auto.
-  - unfold step in HS. destruct (c_wr_open s) eqn:O; [|discriminate]. inversion HS; subst; simpl.
-    repeat rewrite app_nil_r. rewrite andb_true_r. auto.
-  - unfold step in HS. destruct (t_wr_open s) eqn:O; [|discriminate]. inversion HS; subst; simpl.
-    repeat rewrite app_nil_r. rewrite andb_true_r. auto.
-  - unfold step in HS.
-    destruct (phase_eqb (dir1 s) Running && negb (is_nil (rbuf s))); [|discriminate].
-    destruct (buffered c).
-    + destruct (push (t_in s) (wbuf s ++ rbuf s)). inversion HS; subst; simpl.
-      repeat rewrite app_nil_r. repeat rewrite andb_true_r. auto.
-    + inversion HS; subst; simpl. repeat rewrite app_nil_r. repeat rewrite andb_true_r. auto.
-  - unfold step in HS.
-    destruct (phase_eqb (dir1 s) Running && is_nil (rbuf s)); [|discriminate].
-    destruct (push (t_in s) (wbuf s)) as [tin0 w0].
-    destruct (negb (buffered c) || is_nil w0).
-    + destruct (is_nil (firstn n (c2t_src s))); [discriminate|]. inversion HS; subst; simpl.
-      repeat rewrite app_nil_r. repeat rewrite andb_true_r. auto.
-    + destruct (push tin0 (w0 ++ firstn (Nat.min n (bufsize - length w0)) (c2t_src s))).
-      destruct (is_nil (firstn (Nat.min n (bufsize - length w0)) (c2t_src s))); [discriminate|].
-      inversion HS; subst; simpl. repeat rewrite app_nil_r. repeat rewrite andb_true_r. auto.
-  - unfold step in HS.
-    destruct (phase_eqb (dir1 s) Running && is_nil (rbuf s) && is_nil (c2t_src s) && negb (c_wr_open s)) eqn:G;
-      [|discriminate]. bools.
-    destruct (eos_prop c); inversion HS; subst; simpl;
-      repeat rewrite app_nil_r; repeat rewrite andb_true_r; auto.
-  - unfold step in HS. destruct (phase_eqb (dir2 s) Running); [|discriminate].
-    destruct (is_nil (firstn n (t2c_src s))); [discriminate|]. inversion HS; subst; simpl.
-    repeat rewrite app_nil_r. repeat rewrite andb_true_r. auto.
-  - unfold step in HS.
-    destruct (phase_eqb (dir2 s) Running && is_nil (t2c_src s) && negb (t_wr_open s)) eqn:G; [|discriminate].
-    bools. inversion HS; subst; simpl. repeat rewrite app_nil_r. repeat rewrite andb_true_r. auto.
-  - unfold step in HS.
-    destruct (phase_eqb (dir1 s) Done && phase_eqb (dir2 s) Done && negb (closed s)); [|discriminate].
-    inversion HS; subst; simpl. repeat rewrite app_nil_r. repeat rewrite andb_true_r. auto.
+  intro HS. destruct l; crack HS; simpl;
+    repeat match goal with H : _ && _ = true |- _ => apply andb_true_iff in H; destruct H end;
+    repeat match goal with
+    | H : negb (c_wr_open s) = true |- _ => apply negb_true_iff in H; rewrite H
+    | H : negb (t_wr_open s) = true |- _ => apply negb_true_iff in H; rewrite H
+    end;
+    rewrite ?app_nil_r, ?andb_true_r, ?andb_false_r, ?orb_false_r, ?orb_true_r; auto 10.
 Qed.
 
 Lemma client_bytes_cons l tr : client_bytes (l :: tr) = lbl_cbytes l ++ client_bytes tr.
@@ -300,20 +321,29 @@ Proof. destruct l; reflexivity. Qed.
 Lemma target_shut_cons l tr : target_shut (l :: tr) = lbl_tshut l || target_shut tr.
 Proof. destruct l; reflexivity. Qed.
 
+Lemma client_aborted_cons l tr : client_aborted (l :: tr) = lbl_cabort l || client_aborted tr.
+Proof. destruct l; reflexivity. Qed.
+Lemma target_aborted_cons l tr : target_aborted (l :: tr) = lbl_tabort l || target_aborted tr.
+Proof. destruct l; reflexivity. Qed.
+
 Lemma ghost_run c tr : forall s s',
   run c s tr = Some s' ->
   c_sent s' = c_sent s ++ client_bytes tr /\ t_sent s' = t_sent s ++ target_bytes tr /\
   c_wr_open s' = c_wr_open s && negb (client_shut tr) /\
-  t_wr_open s' = t_wr_open s && negb (target_shut tr).
+  t_wr_open s' = t_wr_open s && negb (target_shut tr) /\
+  c_abort s' = c_abort s || client_aborted tr /\
+  t_abort s' = t_abort s || target_aborted tr.
 Proof.
   induction tr as [|l tr IH]; intros s s' R.
-  - simpl in R. inversion R; subst. simpl. repeat rewrite app_nil_r. repeat rewrite andb_true_r. auto.
+  - simpl in R. inversion R; subst. simpl.
+    repeat rewrite app_nil_r. repeat rewrite andb_true_r. repeat rewrite orb_false_r. auto 10.
   - simpl in R. destruct (step c s l) as [s1|] eqn:HS; [|discriminate].
-    apply ghost_step in HS. destruct HS as (A & B & C & D).
-    apply IH in R. destruct R as (A' & B' & C' & D').
-    rewrite client_bytes_cons, target_bytes_cons, client_shut_cons, target_shut_cons.
-    rewrite A', B', C', D', A, B, C, D. repeat rewrite <- app_assoc.
-    repeat rewrite negb_orb. repeat rewrite andb_assoc. auto.
+    apply ghost_step in HS. destruct HS as (A & B & C & D & E & F).
+    apply IH in R. destruct R as (A' & B' & C' & D' & E' & F').
+    rewrite client_bytes_cons, target_bytes_cons, client_shut_cons, target_shut_cons,
+            client_aborted_cons, target_aborted_cons.
+    rewrite A', B', C', D', E', F', A, B, C, D, E, F. repeat rewrite <- app_assoc.
+    repeat rewrite negb_orb. repeat rewrite andb_assoc. repeat rewrite orb_assoc. auto 10.
 Qed.
 
 (* ------------------------------------------------------------------ *)
@@ -329,13 +359,14 @@ Proof. destruct p; auto. Qed.
 (* what quiescentb says, in propositional form *)
 Lemma quiescentb_facts s :
   quiescentb s = true ->
-  (dir1 s = Running -> rbuf s = [] /\ c2t_src s = [] /\ c_wr_open s = true) /\
-  (dir2 s = Running -> t2c_src s = [] /\ t_wr_open s = true) /\
+  (dir1 s = Running -> rbuf s = [] /\ c2t_src s = [] /\ c_wr_open s = true /\ c_abort s = false) /\
+  (dir2 s = Running -> t2c_src s = [] /\ t_wr_open s = true /\ t_abort s = false) /\
   (dir1 s = Done -> dir2 s = Done -> closed s = true).
 Proof.
   unfold quiescentb. intro Q.
   destruct (dir1 s) eqn:D1, (dir2 s) eqn:D2; simpl in Q;
-    destruct (rbuf s), (c2t_src s), (t2c_src s), (c_wr_open s), (t_wr_open s), (closed s);
+    destruct (rbuf s), (c2t_src s), (t2c_src s), (c_wr_open s), (t_wr_open s), (closed s),
+             (c_abort s), (t_abort s);
     simpl in Q; try discriminate; repeat split; intros; try discriminate; auto.
 Qed.
 
@@ -343,7 +374,8 @@ Lemma next_none_quiescentb s : next_internal s = None <-> quiescentb s = true.
 Proof.
   unfold next_internal, quiescentb.
   destruct (dir1 s), (dir2 s); simpl;
-    destruct (rbuf s), (c2t_src s), (t2c_src s), (c_wr_open s), (t_wr_open s), (closed s);
+    destruct (rbuf s), (c2t_src s), (t2c_src s), (c_wr_open s), (t_wr_open s), (closed s),
+             (c_abort s), (t_abort s);
     simpl; split; intro H; try reflexivity; try discriminate.
 Qed.
 
@@ -389,6 +421,12 @@ Proof.
   destruct (phase_eqb (dir2 s) Running && negb (t_wr_open s)) eqn:G5.
   { intro H; inversion H; subst. bools. unfold step. rewrite H0 in *. simpl in *.
     apply negb_false_iff in G4. rewrite G4, H1. simpl. eexists; reflexivity. }
+  destruct (phase_eqb (dir1 s) Running && c_abort s) eqn:G5a.
+  { intro H; inversion H; subst. apply andb_true_iff in G5a. destruct G5a as (R & A).
+    unfold step. rewrite R, A. simpl. destruct (eos_prop c); eexists; reflexivity. }
+  destruct (phase_eqb (dir2 s) Running && t_abort s) eqn:G5b.
+  { intro H; inversion H; subst. apply andb_true_iff in G5b. destruct G5b as (R & A).
+    unfold step. rewrite R, A. simpl. eexists; reflexivity. }
   destruct (phase_eqb (dir1 s) Done && phase_eqb (dir2 s) Done && negb (closed s)) eqn:G6.
   { intro H; inversion H; subst. unfold step. rewrite G6. eexists; reflexivity. }
   discriminate.
